@@ -136,6 +136,9 @@ def run(ctx):
                     viol.append({"input_hex": t.hex(), "input": t.decode("latin-1"), "history_hex": [orig.hex()],
                                  "what": "extension %r removed from require; two Parser objects alive, the %s one had accepted the complete script: expected %r, got %r" % (
                                      e, "older" if first_gets_full else "younger", want, a3[:160])})
+    import aliasing
+    for v in aliasing.parser_company([(c[0], c[4]) for c in cases[: (80 if ctx.tier == "quick" else 800)]]):
+        viol.append(dict(v, what="extension removed from require, Parser objects in company: " + v["what"]))
     fresh, known = split_known("C07", viol, lambda f, v: False)
     res = std_result(rec, info, fresh, known, RULE, {"removal": {"pairs": len(cases)}, "accepted_with_extension_use": nuse}, diffs=diffs)
     res["evaluations"] += len(cases)
